@@ -93,6 +93,16 @@ XMLUCS4Transcoder::transcodeFrom(const  XMLByte* const          srcData
         if (fSwapped)
             nextVal = BitOps::swapBytes(nextVal);
 
+        //  Only Unicode scalar values are legal UCS-4: nothing above 0x10FFFF
+        //  and no surrogate code points. Hand back what we have so far, the
+        //  offending value is reported when it is the first one of a block.
+        if ((nextVal > 0x10FFFF) || ((nextVal >= 0xD800) && (nextVal <= 0xDFFF)))
+        {
+            if (outPtr != toFill)
+                break;
+            ThrowXMLwithMemMgr(TranscodingException, XMLExcepts::Trans_BadSrcSeq, getMemoryManager());
+        }
+
         // Handle a surrogate pair if needed
         if (nextVal & 0xFFFF0000)
         {
